@@ -224,6 +224,9 @@ func (w *workload) client(node int, seed int64, wg *sync.WaitGroup, readOnly boo
 			continue
 		}
 		cl.Timeout = 4 * time.Second
+		if id%3 == 0 {
+			cl.Timeout = 10 * time.Second // patient clients: an operation that commits late is acknowledged to them
+		}
 		logKey := fmt.Sprintf("log:%d", id)
 		ownKey := fmt.Sprintf("own:%d", id)
 		n := 0
@@ -712,9 +715,28 @@ func scenarioC07(o *common.Opts, idx int, st *stats, n int, race bool) string {
 	for a := 0; a < actions; a++ {
 		time.Sleep(time.Duration(800+r.Intn(700)) * time.Millisecond)
 		victim := 1 + r.Intn(n)
-		act := r.Intn(6)
+		act := r.Intn(7)
+		if a == 1 && idx < 10 {
+			act = 6 // once in every run
+		}
 		var name string
 		switch act {
+		case 6:
+			// every follower frozen for longer than any retry interval a server might have: the leader keeps its role
+			// but commits nothing; what was pending then commits late - once
+			name = "freeze-followers"
+			lead := currentLeader(c)
+			for _, nd := range c.Nodes {
+				if nd.ID != lead {
+					c.Pause(nd.ID)
+				}
+			}
+			time.Sleep(time.Duration(5500+r.Intn(2000)) * time.Millisecond)
+			for _, nd := range c.Nodes {
+				if nd.ID != lead {
+					c.Resume(nd.ID)
+				}
+			}
 		case 0:
 			name = "partition-one"
 			c.Partition([]int{victim})
